@@ -139,6 +139,36 @@ def numBin? (op : NumOp) (x y : Sx) : Option Sx :=
 def numFold? (op : NumOp) (start : Sx) (xs : List Sx) : Option Sx :=
   xs.foldl (fun acc x => acc.bind (fun a => numBin? op a x)) (some start)
 
+/-- the float phase of CPython 3.12's `sum`: floats are accumulated with Neumaier's compensated summation (`c` is the
+    running compensation, added once at the end when it is non-zero and finite), integers are added as doubles -/
+def pySumFloat (f c : Float) : List Sx → Option Sx
+  | [] => some (.flt (if c != 0 && c.isFinite then f + c else f).toBits)
+  | x :: r =>
+    match x with
+    | .flt b =>
+      let x := Float.ofBits b
+      let t := f + x
+      let c' := if f.abs >= x.abs then c + ((f - t) + x) else c + ((x - t) + f)
+      pySumFloat t c' r
+    | _ =>
+      match (asInt? x).bind toFloat? with
+      | some v => pySumFloat (f + v) c r
+      | Option.none => Option.none
+
+/-- the integer phase: exact while the items are ints/bools; the first float is added with an ordinary `+` -/
+def pySumInt (acc : Int) : List Sx → Option Sx
+  | [] => some (.int acc)
+  | x :: r =>
+    match asInt? x with
+    | some a => pySumInt (acc + a) r
+    | Option.none =>
+      match numBin? .add (.int acc) x with
+      | some (.flt b) => pySumFloat (Float.ofBits b) 0.0 r
+      | _ => Option.none
+
+/-- Python's builtin `sum(xs)` (start 0) on numbers, as CPython 3.12 computes it -/
+def pySum? (xs : List Sx) : Option Sx := pySumInt 0 xs
+
 inductive CmpOp where
   | lt | le | gt | ge
   deriving Repr, DecidableEq
